@@ -63,6 +63,10 @@ def splines(tier):
         for ex in (False, True):
             out.append(Spline(((0.0, 0.0), (8.0, 10.0), (8.0, -2.0), (31.0, 0.5)), order, ex))
             out.append(Spline(((-4.0, 10.0), (3.0, 0.5), (3.0, 10.0), (8.0, 0.0), (8.0, 0.5), (31.0, -2.0)), order, ex))
+    # knots of the size of 32-bit counters
+    for order in (0, 1):
+        out.append(Spline(((0.0, 10.0), (2e9, 20.0), (4e9, 30.0)), order, order == 1))
+        out.append(Spline(((-2147483648.0, -1.0), (2147483647.0, 1.0)), order, False))
     # both zeros as calibrated values and as raws, in both orders
     out.append(Spline(((-4.0, -0.0), (0.0, 0.0), (8.0, -0.0), (31.0, 10.0)), 1, True))
     out.append(Spline(((-0.0, 0.0), (3.0, -0.0), (8.0, 0.5)), 0, False))
@@ -272,7 +276,7 @@ def _task(task):
 
 def _task_objects(task):
     """Object level: calibrators built with the public constructors and queried through calibrate() on a dyadic grid that
-    includes every knot, the midpoints between knots and points half a unit outside both ends (not only integer raws)."""
+    includes every knot and its neighbourhood (adjacent floats, 1e-10 relative), the midpoints between knots and points half a unit outside both ends (not only integer raws)."""
     from fractions import Fraction
     from space_packet_parser.exceptions import CalibrationError
     from space_packet_parser.xtce import calibrators
@@ -290,6 +294,15 @@ def _task_objects(task):
                 xs = sorted(r for r, _ in cal.points)
                 grid = sorted(set(xs + [(a + b) / 2 for a, b in zip(xs, xs[1:])] + [(3 * a + b) / 4 for a, b in zip(xs, xs[1:])]
                                   + [xs[0] - 0.5, xs[0] - 16, xs[-1] + 0.5, xs[-1] + 16]))
+                if len(xs) <= 8:
+                    # the neighbourhood of every knot: the adjacent floats, a relative distance of 1e-10, and (for big raws) the adjacent integers
+                    import math
+                    near = []
+                    for x0 in xs:
+                        near += [math.nextafter(x0, -math.inf), math.nextafter(x0, math.inf), x0 - max(abs(x0), 1.0) * 1e-10, x0 + max(abs(x0), 1.0) * 1e-10]
+                        if abs(x0) > 1e6:
+                            near += [x0 - 1, x0 + 1]
+                    grid = sorted(set(grid + near))
             scr = [grid[(i * 7 + 3) % len(grid)] for i in range(len(grid))] if len(grid) % 7 else list(reversed(grid))
             for x in list(grid) + scr:   # ascending, then scrambled (the same calibrator object answers all queries)
                 for q in ((x, int(x)) if float(x).is_integer() else (x,)):   # int and float query of the same point
